@@ -28,6 +28,7 @@ from mitmproxy.test import tflow
 PROTOS = ("http1_req", "http1_resp", "http2_req", "http2_resp", "ws_c2s", "ws_s2c", "tcp_c2s", "tcp_s2c",
           "udp_c2s", "udp_s2c", "dns_req", "dns_resp")
 ACTIONS = ("resume", "edit", "kill")
+EDIT_MODES = ("inplace", "replace", "copy_assign", "set_state", "revert")
 BETWEEN = ("next", "reverse", "sibling", "close")
 # which layers consult flow.error/kill in their "send after hook" step (everything else forwards regardless)
 HONOURS_KILL = {"http1_req", "http1_resp", "http2_req", "http2_resp", "dns_req"}
@@ -66,8 +67,34 @@ class Scn:
     def decoded(self, label):
         return self.sent(label)
 
-    # to implement: setup, send(marker), reverse(), marker_of(hook), edit(marker), flow()
+    # to implement: setup, send(marker), reverse(), marker_of(hook), flow(), and the message primitives
+    #   _get() / _set(obj): the held message object of the flow;  _put(obj, marker): in-place content edit;
+    #   _fresh(obj, marker): a NEW message object with that content;  _state_put(state, marker): edit a flow state
     def sibling(self):
+        return None
+
+    def edit(self, marker, how="inplace"):
+        """the user edits the held message so that the flow holds `marker` — except `revert`, which edits and then
+        takes the edit back (the flow then holds the original again, in a fresh object)"""
+        f = self.flow()
+        if how == "inplace":
+            self._put(self._get(), marker)
+        elif how == "replace":                       # flow.request = Request(...) / messages[-1] = Message(...)
+            self._set(self._fresh(self._get(), marker))
+        elif how == "copy_assign":                   # copy, assign, then edit the object the flow now holds
+            self._set(self._fresh(self._get(), None))
+            self._put(self._get(), marker)
+        elif how == "set_state":                     # load an edited state into the held flow
+            st = f.get_state(); self._state_put(st, marker); f.set_state(st)
+        elif how == "revert":                        # backup, edit, revert
+            f.backup(); self._put(self._get(), marker); f.revert()
+        else:
+            raise Skip(how)
+
+    def held_marker(self):
+        """the payload marker of the message the flow holds right now"""
+        for m in (A, B):
+            if m in self._content(self._get()).upper(): return m
         return None
 
     def close_source(self):
@@ -98,7 +125,14 @@ class TcpScn(Scn):
         return bytes(msgs[-1].content) if msgs else None
 
     def flow(self): return self.deferred_target.flow
-    def edit(self, marker): self.flow().messages[-1].content = marker
+    def _get(self): return self.flow().messages[-1]
+    def _set(self, obj): self.flow().messages[-1] = obj
+    def _put(self, obj, marker): obj.content = marker
+    def _content(self, obj): return bytes(obj.content)
+    def _fresh(self, obj, marker):
+        return type(obj)(obj.from_client, obj.content if marker is None else marker)
+    def _state_put(self, st, marker):
+        m = st["messages"][-1]; st["messages"][-1] = (m[0], marker) + tuple(m[2:])
 
 
 class UdpScn(TcpScn):
@@ -169,12 +203,20 @@ class DnsScn(Scn):
 
     def flow(self): return self.deferred_target.flow
 
-    def edit(self, marker):
-        f = self.flow()
-        if self.req: f.request.questions[0].name = self.name(marker)
-        else:
-            f.response.questions[0].name = self.name(marker)
-            for a in f.response.answers: a.name = self.name(marker)
+    def _get(self): return self.flow().request if self.req else self.flow().response
+    def _set(self, obj): setattr(self.flow(), "request" if self.req else "response", obj)
+    def _put(self, obj, marker):
+        obj.questions[0].name = self.name(marker)
+        for a in obj.answers: a.name = self.name(marker)
+    def _content(self, obj): return obj.questions[0].name.encode()
+    def _fresh(self, obj, marker):
+        new = obj.copy()
+        if marker is not None: self._put(new, marker)
+        return new
+    def _state_put(self, st, marker):
+        m = st["request" if self.req else "response"]
+        m["questions"][0]["name"] = self.name(marker)
+        for a in m["answers"]: a["name"] = self.name(marker)
 
 
 class Http1Scn(Scn):
@@ -217,9 +259,18 @@ class Http1Scn(Scn):
 
     def flow(self): return self.deferred_target.flow
 
-    def edit(self, marker):
-        f = self.flow()
-        (f.request if self.req else f.response).content = marker
+    def _get(self): return self.flow().request if self.req else self.flow().response
+    def _set(self, obj): setattr(self.flow(), "request" if self.req else "response", obj)
+    def _put(self, obj, marker): obj.content = marker
+    def _content(self, obj): return bytes(obj.raw_content or b"")
+    def _fresh(self, obj, marker):
+        new = obj.copy()
+        if marker is not None: new.content = marker
+        return new
+    def _state_put(self, st, marker):
+        m = st["request" if self.req else "response"]
+        m["content"] = marker
+        m["headers"] = tuple((k, (str(len(marker)).encode() if k.lower() == b"content-length" else v)) for k, v in m["headers"])
 
 
 class Http2Scn(Http1Scn):
@@ -365,7 +416,15 @@ class WsScn(Scn):
         return bytes(ws.messages[-1].content) if ws and ws.messages else None
 
     def flow(self): return self.deferred_target.flow
-    def edit(self, marker): self.flow().websocket.messages[-1].content = marker
+    def _get(self): return self.flow().websocket.messages[-1]
+    def _set(self, obj): self.flow().websocket.messages[-1] = obj
+    def _put(self, obj, marker): obj.content = marker
+    def _content(self, obj): return bytes(obj.content)
+    def _fresh(self, obj, marker):
+        from mitmproxy.websocket import WebSocketMessage
+        return WebSocketMessage(obj.type, obj.from_client, obj.content if marker is None else marker)
+    def _state_put(self, st, marker):
+        m = st["websocket"]["messages"][-1]; st["websocket"]["messages"][-1] = (m[0], m[1], marker) + tuple(m[3:])
 
 
 def make_scn(case):
@@ -406,7 +465,9 @@ def run_world(case):
     act = case["action"]
     final = A
     if act == "edit":
-        s.edit(B); final = B
+        s.edit(B, case.get("how", "inplace"))
+        final = s.held_marker()                     # what the flow holds when it is resumed
+        obs["held_at_resume"] = None if final is None else final.decode()
     if act == "kill":
         killable = bool(f.killable)
         if killable: f.kill()
@@ -417,8 +478,9 @@ def run_world(case):
     # the hook completes (handle_hook returns once wait_for_resume does)
     s.w.resume(s.deferred_target)
     # everything else the environment owes: later hooks complete immediately (on_hook), nothing is deferred any more
-    obs["after_final"] = s.dest_count(final)
-    obs["after_orig"] = s.dest_count(A) if final != A else None
+    obs["after_final"] = s.dest_count(final) if final else 0
+    # the other version of the message (the unedited original, or the edit that was taken back) must not be sent
+    obs["after_orig"] = (s.dest_count(A if final != A else B) if act == "edit" else None)
     obs["next_after"] = s.dest_count(C)
     obs["reverse_after"] = s.reverse_count() if "reverse" in case.get("between", []) else 0
     obs["error"] = None if f.error is None else str(f.error.msg)
@@ -571,7 +633,13 @@ class Check(PropertyCheck):
                         if "next" in bt and p not in NEXT_OK: continue
                         if "reverse" in bt and p not in REVERSE_OK: continue
                         if "sibling" in bt and not p.startswith("http2"): continue
-                        yield {"level": "world", "proto": p, "action": a, "between": list(bt)}
+                        if a == "edit":
+                            # in-place edits and edits that replace the held message OBJECT (assignment, copy+assign,
+                            # set_state, backup+edit+revert): what is forwarded must be what the flow holds at resume
+                            for how in EDIT_MODES:
+                                yield {"level": "world", "proto": p, "action": a, "how": how, "between": list(bt)}
+                        else:
+                            yield {"level": "world", "proto": p, "action": a, "between": list(bt)}
 
     def _async_small(self, L):
         alphabet = [["hook", 1], ["hook", 0], ["intercept"], ["resume"], ["kill"]]
@@ -618,7 +686,10 @@ class Check(PropertyCheck):
                 if obs["after_final"] == 0 and not closed and not obs["error"]:
                     fails.append("resume: the message was not forwarded")
                 if obs["after_orig"]:
-                    fails.append("resume: the unedited message was forwarded although it was edited while intercepted")
+                    fails.append("resume: a version of the message that the flow no longer holds was forwarded "
+                                 f"(the flow held {obs.get('held_at_resume')} when it was resumed)")
+                if case["action"] == "edit" and obs.get("held_at_resume") is None:
+                    fails.append("harness: the edited flow holds neither marker")
                 if obs["still_intercepted"]: fails.append("resume: flow still intercepted")
             else:
                 # "killing the flow sends nothing further for it and ends it with an error"
@@ -682,7 +753,9 @@ class Check(PropertyCheck):
                 lines.append("x 0 %d %d" % (int(p in ("http1_req", "http2_req")), int(p == "udp_c2s")))
         lines.append("mark")
         act = case["action"]
-        lines.append({"resume": "c 0 0 0 1", "edit": "c 0 0 0 2", "kill": "c 0 1 0 1"}[act])
+        # the verdict's content is what the flow holds at resume: the edit (2), or the original again after a revert (1)
+        edited = "1" if case.get("how") == "revert" else "2"
+        lines.append({"resume": "c 0 0 0 1", "edit": f"c 0 0 0 {edited}", "kill": "c 0 1 0 1"}[act])
         for key, id_, c in pending:
             lines.append(f"c {key} 0 0 {c}")
         return [l for l in lines if l != "mark"] + ["#%d" % lines.index("mark")]
@@ -712,9 +785,9 @@ class Check(PropertyCheck):
             return out
         ids = {"MSGAAAA": 1, "MSGBBBB": 1, "MSGCCCC": 2, "MSGRRRR": 3}
         sends = []
-        fin = "2" if case["action"] == "edit" else "1"
+        fin = "2" if obs.get("held_at_resume") == "MSGBBBB" else "1"
         if obs["after_final"]: sends += [f"1:{fin}"] * obs["after_final"]
-        if obs.get("after_orig"): sends += ["1:1"] * obs["after_orig"]
+        if obs.get("after_orig"): sends += ["1:%s" % ("1" if fin == "2" else "2")] * obs["after_orig"]
         if obs["next_after"]: sends += ["2:3"] * min(obs["next_after"], 1 if KIND[case["proto"]] != "dnsResp" else obs["next_after"])
         if obs.get("reverse_after"): sends += ["3:5"] * obs["reverse_after"]
         sib = obs["between"].get("sibling")
@@ -744,7 +817,11 @@ class Check(PropertyCheck):
         if case["level"] == "world":
             for a in ACTIONS:
                 for b in BETWEEN:
-                    yield dict(case, action=a, between=case["between"] + [b])
+                    for how in (EDIT_MODES if a == "edit" else (None,)):
+                        c = dict(case, action=a, between=case["between"] + [b])
+                        if how: c["how"] = how
+                        else: c.pop("how", None)
+                        yield c
         else:
             ops = case["ops"]
             for i in range(len(ops) + 1):
